@@ -98,3 +98,15 @@ class WirePort(BaseIOPort):
         while self.wire:
             byte = self.wire.popleft()
             self._parser.feed_byte(byte)
+
+
+class KeepPort(BaseIOPort):
+    """Loop-back device that queues the very Message objects its _send() is given (the pattern of the port double in
+    the repository's tests and of examples/ports/queue_port.py): whether the receiver gets a copy is then entirely up
+    to BaseOutput.send()."""
+
+    def _open(self, **kwargs):
+        pass
+
+    def _send(self, msg):
+        self._messages.append(msg)
